@@ -62,3 +62,24 @@ Definition pack_read (o : op) : bool :=
   | OReadPartial Pack _ _ _ _ | OReadFull Pack _ => true
   | _ => false
   end.
+
+(* ---- the commands of the property ---- *)
+(* s is a step command c can make w.r.t. snapshot / index files: an access through one of
+   the readers the source uses in c, a direct listing, a write, a removal, a partial read of a
+   type that is never cached by type *)
+Definition step_of (c : cmd) (s : cstep) : bool :=
+  match s with
+  | CAccess r t _ _ => existsb (fun p => rdr_beq (fst p) r && ft_eqb (snd p) t) (cmd_readers c)
+  | CReadPart t _ _ _ => negb (is_cacheable t)
+  | _ => true
+  end.
+
+(* every reader of c that reads a cacheable type lists it first *)
+Definition listing_cmd (c : cmd) : bool :=
+  forallb (fun p => negb (is_cacheable (snd p) && rdr_reads (fst p) && negb (rdr_lists_first (fst p)))) (cmd_readers c).
+
+Definition cmd_item (x : hitem) : Prop :=
+  match x with
+  | HStep s => exists c, listing_cmd c = true /\ step_of c s = true
+  | HEnv o => env_op o = true
+  end.
